@@ -44,3 +44,7 @@ CHECKS['C09'] = ('model_checking',
     '(a) exhaustive layout enumeration: 7 grammars with comment directives x every lexeme sequence up to length 3 x every assignment of 6 (quick) / 11 (thorough) whitespace-and-comment runs to every gap, against the reference evaluator and (token-only grammars) AST invariance; (b) full product tokens x case variants x following characters x nameguard x namechars x ignorecase x {directive, setting} against the reference token matcher; (c) the complete 27-point layering lattice {absent,v1,v2}^3 (compile, directive, parse time) for 7 settings, differential against the value given alone at parse time',
     'trusted: the reference evaluator\'s skip() and token matcher; digit-initial tokens are not treated as names',
     'exhaustive enumeration of inputs x configurations against a reference model + complete configuration lattice')
+CHECKS['C11'] = ('model_checking',
+    'reference-model conformance by bounded exhaustive enumeration: 8 grammar shapes around an @name rule x 5 keyword sets x ignorecase {off, directive, setting} x every word sequence up to length 3/4 over keywords, keyword prefixes/suffixes and case variants; model vs reference evaluator, model vs generated parser, and model-free oracles (nothing the @name rule returns is a keyword; removing the decorator changes nothing on keyword-free inputs)',
+    'trusted: the reference evaluator\'s keyword rule; @name bodies are single-string patterns',
+    'explicit enumeration of programs x inputs x configurations against a reference model, every model trace replayed on the implementation')
